@@ -18,6 +18,13 @@ EXTENSION histories (`stages=`, `mk`, `ext`): stage `j` is the collection of the
 with dataset `i` stored under location `o_j + i`; `mk` = `Crash.createSess`, `ext` = `Crash.extendSess`
 (the model's `create` / `update` that keep the handle open), followed by `internalize` for a
 memory-backed stage; the world the model reads external signatures from is the stage's own storage.
+MULTI-STAGE crash histories (`hist=<n_0>[c][f][r],<n_1>…`): the state the build under test starts from is
+the one after COMPLETED builds over the first `n_0 < n_1 < …` datasets, stage 0 by `createLog` on the
+empty directory, a later stage by `openIdx` + `updateLog` (`c`: `createLog` on the directory as it is);
+the flush / read-only open after a stage changes nothing.  `settle <seq>` (open, flush, drop on a crash
+state): each step `ok` iff `openIdx` succeeds, the durable state unchanged.  The killed build and its
+re-runs are the `crash` / `resume` lines of the single-stage cases; what is demanded of the re-run is the
+reference state of the whole collection.
 The name a signature is printed with is the dataset's position (what the specification demands); the
 hashes come from the model's `sig_for_dataset`. -/
 open Driver Crash
@@ -35,6 +42,8 @@ structure DState where
   all : Coll := []
   /-- `stages=`: (number of datasets, location offset) -/
   stages : List (Nat × Nat) := []
+  /-- `hist=`: (number of datasets, built by `create`) -/
+  hist : List (Nat × Bool) := []
 
 def parseColl (s : String) : Coll :=
   let ds := (s.splitOn "/").map natList
@@ -149,7 +158,18 @@ def setField (st : DState) (w : String) : DState :=
       match x.splitOn ":" with
       | [n, o] => some (n.toNat!, o.toNat!)
       | _ => none) }
+  | ["hist", v] => { st with hist := (v.splitOn ",").map (fun x =>
+      ((x.takeWhile Char.isDigit).toNat!, x.contains 'c')) }
   | _ => st
+
+/-- the durable state after the completed builds of `hist=` (`none`: a stage cannot open the index or
+`check_superset` refuses) -/
+def histDisk (c : Coll) (hist : List (Nat × Bool)) : Option Disk :=
+  (List.range hist.length).zip hist |>.foldl (fun (acc : Option Disk) (j, n, create) =>
+    acc.bind (fun d =>
+      let cj := c.take n
+      if j == 0 || create then some (run d (createLog d cj .fs))
+      else (openIdx rtId d false).bind (fun h => (updateLog h cj .fs).map (run d)))) (some Disk.empty)
 
 /-- the collection of stage `j`: the first `n` datasets, dataset `i` under location `o + i` -/
 def stageColl (st : DState) (j : Nat) : Option Coll :=
@@ -166,6 +186,12 @@ def stepC10 (st : DState) (ws : List String) : DState × Resp :=
   match ws with
   | "case" :: _ :: params =>
     let st := params.foldl setField {}
+    if !st.hist.isEmpty then
+      match histDisk st.coll st.hist with
+      | some d0 => ({ st with sess := { disk := d0 }, all := st.coll, base := (st.hist.getLast?.map (·.1)).getD 0 },
+                    { model := "ok" })
+      | none => (st, { model := "PANIC" })
+    else
     let d0 := if st.base > 0 || st.update then
         run Disk.empty (createLog Disk.empty (st.coll.take st.base) .fs) else Disk.empty
     ({ st with sess := { disk := d0 }, all := st.coll }, { model := "ok" })
@@ -230,6 +256,11 @@ def stepC10 (st : DState) (ws : List String) : DState × Resp :=
         (st, { model := observe st, spec := refObserve st })
     else if op == "obs" then (st, { model := observe st, spec := if st.complete then refObserve st else "-" })
     else (st, { model := "bad-op" })
+  | ["settle", seq] =>
+    let rs := (seq.splitOn ",").map (fun _ =>
+      if (openIdx rtId st.sess.disk false).isSome then "ok" else "err")
+    ({ st with sess := { st.sess with handle := none } },
+      { model := ",".intercalate rs ++ "|" ++ showScan st.sess.disk })
   | ["reopen", seq] =>
     let ops := (seq.splitOn ",").filterMap parseOp
     let (s', rs) := reopenSeq rtId (world st.coll) st.sess ops
